@@ -271,7 +271,8 @@ impl<F: Float, D: Distance<F>, N: NearestNeighbour> OpticsValidParams<F, D, N> {
     ) -> Vec<Sample<F>> {
         // Unwrap here is fine because we don't expect any dimension mismatch when calling
         // within_range with points from the observations
-        nn.within_range(candidate, self.tolerance())
+        let mut neighbors: Vec<Sample<F>> = nn
+            .within_range(candidate, self.tolerance())
             .unwrap()
             .into_iter()
             .map(|(pt, index)| Sample {
@@ -279,7 +280,15 @@ impl<F: Float, D: Distance<F>, N: NearestNeighbour> OpticsValidParams<F, D, N> {
                 reachability_distance: Some(self.dist_fn().distance(pt, candidate)),
                 core_distance: None,
             })
-            .collect()
+            .collect();
+        // `within_range` makes no promise about the order of its answers (only the k-d tree sorts
+        // them) and `set_core_distance` reads the `minimum_points`-th nearest neighbour off this list
+        neighbors.sort_by(|a, b| {
+            a.reachability_distance
+                .partial_cmp(&b.reachability_distance)
+                .unwrap_or(std::cmp::Ordering::Equal)
+        });
+        neighbors
     }
 
     /// Set the core distance given the minimum points in a cluster and the points neighbors
